@@ -464,12 +464,125 @@ impl U256Muldiv {
     }
 //@ end
 
+//@ assume U256Muldiv::div: the early cases (zero dividend, dividend shorter than the divisor, both below 2^128) are verified as a segment of the real body (div_cases_012); the single-word-divisor loop and the Knuth algorithm D part (normalisation, div_loop) stay an assumed contract, as does the composition of the segment with the rest
 //@ fn math/u256_math.rs div in=/^impl U256Muldiv \{/ -> r stub
     requires divisor.view() != 0,
     ensures r.0.view() == self.view() / divisor.view(),
         return_remainder ==> r.1.view() == self.view() % divisor.view(),
         !return_remainder ==> r.1.view() == 0,
 //@ end
+//@ seg math/u256_math.rs div in=/^impl U256Muldiv \{/ from=/let mut dividend = self\.copy\(\);/ to=/if num_divisor_words == 1 \{/ ret=(quotient,dividend)
+    fn div_cases_012(&self, divisor: U256Muldiv, return_remainder: bool) -> (r: (Self, Self))
+        requires divisor.view() != 0,
+        ensures (self.num_words_spec() < 3 || self.num_words_spec() < divisor.num_words_spec()) ==> (
+            r.0.view() == self.view() / divisor.view()
+            && (return_remainder ==> r.1.view() == self.view() % divisor.view())
+            && (!return_remainder ==> r.1.view() == 0)),
+//@ proof
+        proof {
+            lemma_view_bounds(*self); lemma_view_bounds(divisor); lemma_q_powers();
+            let a = self.view(); let d = divisor.view();
+            if a < d { vstd::arithmetic::div_mod::lemma_basic_div(a, d); vstd::arithmetic::div_mod::lemma_small_mod(a as nat, d as nat); }
+            // fewer significant words means a smaller number
+            if self.num_words_spec() < divisor.num_words_spec() { lemma_words_lt(*self, divisor); }
+            if self.num_words_spec() < 3 { assert(a < Q2()); }
+        }
+//@ end
+//@ seg math/u256_math.rs div in=/^impl U256Muldiv \{/ from=/if num_divisor_words == 1 \{/ to=/let s = divisor\.get_word\(num_divisor_words - 1\)\.leading_zeros\(\);/ ret=(quotient,dividend) var=quotient
+    /// Case 3 of div: long division by a single-word divisor, most significant word first
+    fn div_case_3(dividend: U256Muldiv, divisor: U256Muldiv, quotient_in: U256Muldiv, num_dividend_words: usize, num_divisor_words: usize, return_remainder: bool) -> (r: (Self, Self))
+        requires num_dividend_words == dividend.num_words_spec(), num_divisor_words == divisor.num_words_spec(), quotient_in.view() == 0,
+        ensures num_divisor_words == 1 ==> (
+            r.0.view() == dividend.view() / divisor.view()
+            && (return_remainder ==> r.1.view() == dividend.view() % divisor.view())
+            && (!return_remainder ==> r.1.view() == 0)),
+//@ rewrite_rev
+//@ loop 0
+                invariant j_rev <= num_dividend_words, num_dividend_words == dividend.num_words_spec(), num_divisor_words == 1, num_divisor_words == divisor.num_words_spec(),
+                    k < divisor.items[0] as u128, divisor.items[0] != 0,
+                    forall|i: int| 0 <= i < j_rev ==> quotient.items[i] == 0,
+                    hp(dividend, j_rev as int) == hp(quotient, j_rev as int) * divisor.items[0] as int + k as int,
+                decreases j_rev,
+//@ inject before /let mut k = 0;/
+            proof { lemma_view_bounds(quotient); lemma_view_bounds(dividend); lemma_view_bounds(divisor); lemma_hp_top(dividend, num_dividend_words as int); lemma_hp_zero(quotient, num_dividend_words as int);
+                    assert(0 * divisor.items[0] as int == 0) by(nonlinear_arith); }
+//@ inject after /let d1 = hi_lo\(/
+                let ghost q_before = quotient; let ghost k_before = k;
+//@ inject before /k = d1 - d2 \* q;/
+                proof { vstd::arithmetic::div_mod::lemma_fundamental_div_mod(d1 as int, d2 as int); vstd::arithmetic::div_mod::lemma_mod_bound(d1 as int, d2 as int);
+                        assert(d2 as int * (d1 as int / d2 as int) <= d1 as int); }
+//@ inject after /quotient\.update_word\(j, q\.lo\(\)\);/
+                proof { lemma_div_step(dividend, q_before, quotient, j as int, k_before as int, divisor.items[0] as int, q as int, k as int); }
+//@ inject before /if return_remainder \{/
+            proof {
+                lemma_hp_full(dividend); lemma_hp_full(quotient); lemma_view_bounds(divisor);
+                let d = divisor.items[0] as int;
+                assert(divisor.view() == d) by { assert(0 * Q() == 0 && 0 * Q2() == 0 && 0 * Q3() == 0) by(nonlinear_arith); }
+                assert(dividend.view() == d * quotient.view() + k as int) by(nonlinear_arith) requires dividend.view() == quotient.view() * d + k as int;
+                vstd::arithmetic::div_mod::lemma_fundamental_div_mod_converse(dividend.view(), d, quotient.view(), k as int);
+            }
+//@ end
+}
+/// the number formed by words j.. of x (word j least significant)
+pub open spec fn hp(x: U256Muldiv, j: int) -> int decreases 4 - j { if j >= 4 || j < 0 { 0 } else { x.items[j] as int + Q() * hp(x, j + 1) } }
+pub proof fn lemma_hp_full(x: U256Muldiv) ensures hp(x, 0) == x.view()
+{
+    lemma_q_powers();
+    let a = x.items[0] as int; let b = x.items[1] as int; let c = x.items[2] as int; let d = x.items[3] as int; let q = Q();
+    assert(hp(x, 3) == d) by { assert(hp(x, 4) == 0); assert(q * 0 == 0) by(nonlinear_arith); }
+    assert(hp(x, 2) == c + q * d); assert(hp(x, 1) == b + q * (c + q * d)); assert(hp(x, 0) == a + q * (b + q * (c + q * d)));
+    assert(a + q * (b + q * (c + q * d)) == a + b * q + c * (q * q) + d * (q * q * q)) by(nonlinear_arith);
+    assert(Q3() == q * q * q);
+}
+pub proof fn lemma_hp_zero(x: U256Muldiv, j: int) requires x.view() == 0, 0 <= j ensures hp(x, j) == 0 decreases 4 - j
+{
+    lemma_view_bounds(x);
+    if j < 4 { lemma_hp_zero(x, j + 1); assert(Q() * 0 == 0) by(nonlinear_arith); }
+}
+pub proof fn lemma_hp_top(x: U256Muldiv, n: int) requires n == x.num_words_spec() ensures hp(x, n) == 0 decreases 4 - n
+{
+    if n < 4 {
+        // words n.. are zero
+        assert(x.items[n] == 0);
+        lemma_hp_top_zero(x, n);
+    }
+}
+pub proof fn lemma_hp_top_zero(x: U256Muldiv, j: int) requires 0 <= j, forall|i: int| j <= i < 4 ==> x.items[i] == 0 ensures hp(x, j) == 0 decreases 4 - j
+{
+    if j < 4 { lemma_hp_top_zero(x, j + 1); assert(Q() * 0 == 0) by(nonlinear_arith); }
+}
+/// one digit of the long division by the single word d
+pub proof fn lemma_div_step(u: U256Muldiv, q0: U256Muldiv, q1: U256Muldiv, j: int, k0: int, d: int, qq: int, k1: int)
+    requires 0 <= j < 4, d > 0, 0 <= k0 < d, d < Q(),
+        hp(u, j + 1) == hp(q0, j + 1) * d + k0,
+        qq == (k0 * Q() + u.items[j] as int) / d, k1 == (k0 * Q() + u.items[j] as int) - d * qq,
+        q1.items@ == q0.items@.update(j, (qq % Q()) as u64), forall|i: int| 0 <= i <= j ==> q0.items[i] == 0,
+    ensures 0 <= k1 < d, 0 <= qq < Q(), hp(u, j) == hp(q1, j) * d + k1, forall|i: int| 0 <= i < j ==> q1.items[i] == 0,
+{
+    let q = Q(); let uj = u.items[j] as int; let d1 = k0 * q + uj;
+    assert(0 <= d1 < d * q) by(nonlinear_arith) requires 0 <= k0 <= d - 1, 0 <= uj < q, d1 == k0 * q + uj, q > 0;
+    vstd::arithmetic::div_mod::lemma_fundamental_div_mod(d1, d); vstd::arithmetic::div_mod::lemma_mod_bound(d1, d);
+    vstd::arithmetic::div_mod::lemma_div_pos_is_pos(d1, d);
+    assert(qq < q) by(nonlinear_arith) requires d1 < d * q, d1 == d * qq + d1 % d, d1 % d >= 0, d > 0;
+    vstd::arithmetic::div_mod::lemma_small_mod(qq as nat, q as nat);
+    assert(q1.items[j] as int == qq);
+    lemma_hp_same(q0, q1, j + 1);
+    assert(hp(q1, j) == qq + q * hp(q1, j + 1));
+    assert(hp(u, j) == uj + q * hp(u, j + 1));
+    let h = hp(q0, j + 1);
+    assert(uj + q * (h * d + k0) == (qq + q * h) * d + k1) by(nonlinear_arith) requires k0 * q + uj == d * qq + k1;
+}
+pub proof fn lemma_hp_same(a: U256Muldiv, b: U256Muldiv, j: int) requires 0 <= j, forall|i: int| j <= i < 4 ==> a.items[i] == b.items[i] ensures hp(a, j) == hp(b, j) decreases 4 - j
+{ if j < 4 { lemma_hp_same(a, b, j + 1); } }
+/// a number with fewer significant words is smaller
+pub proof fn lemma_words_lt(a: U256Muldiv, b: U256Muldiv)
+    requires a.num_words_spec() < b.num_words_spec(),
+    ensures a.view() < b.view(),
+{
+    lemma_view_bounds(a); lemma_view_bounds(b); lemma_q_powers();
+    let n = b.num_words_spec();
+    if n == 1 { } else if n == 2 { assert(b.view() >= Q()) by { assert(b.items[1] as int * Q() >= Q()) by(nonlinear_arith) requires b.items[1] as int >= 1; } }
+    else if n == 3 { } else { }
 }
 
 impl vstd::std_specs::convert::FromSpecImpl<u128> for U256Muldiv {
